@@ -119,11 +119,15 @@ def expected (typ : Char) : Char :=
 
 def kindOf (typ k : Char) : Nat := if k = 'E' then 1 else if k = expected typ then 0 else 2
 
+/-- the caller that was handed its response calls releaseStream before it returns -/
+def OS.relAll (os : OS) (i : Nat) : OS :=
+  if os.st.rel i = .due then (os.act (.release i) "release").act (.relDone i) "relDone" else os
+
 /-- the whole answer of call i is with the receive loop -/
 def OS.complete (os : OS) (i : Nat) (c : OCall) : OS :=
   if c.held then { os with calls := os.calls.set (i - 1) { c with due := true } }
   else
-    let os := os.act (.deliver i) "deliver"
+    let os := (os.act (.deliver i) "deliver").relAll i
     let os := if c.typ = 'h' then os.act (.hbReact i) "hbReact" else os
     os.settle
 
@@ -235,6 +239,8 @@ def OS.outcome (os : OS) (i : Nat) (c : OCall) : String :=
   | .done (.connErr (.frame _)) => "F!foreign"
   | .done .timeout => "T"
   | .done .writeErr => "X"
+  | .done .buildErr => "B"
+  | .done .dupErr => "D!stream-in-use"
   | .flight _ _ _ _ => "W"
   | .idle => "?"
 
@@ -255,6 +261,333 @@ def drAnswer (proto wr hb : String) (steps : List String) : String :=
         | none => "?"
       " ".intercalate (os.out.reverse ++ [";"] ++ outs ++ ["|", if os.st.closed.isSome then "closed" else "open"])
   | _, _, _ => "bad-op"
+
+
+/-! ### `ds`: schedule points inside exec and releaseStream, several connections (round 7). Event-ordered scripts
+    over TWO bare connections of one process, run on one machine `Model/MuxOwn.lean` (configuration `Cfg.code`) per
+    connection, with the stream-id allocator of internal/streams as it is (rotating bucket offset, lowest free id of the
+    first bucket that has one). Script grammar: harness/muxrun/sched.go. -/
+
+structure DCall where
+  typ : Char            -- q user request | b user request whose buildFrame fails
+  conn : Nat
+  L : Nat
+  sentB : Nat := 0
+  held : Bool := false      -- inside Write
+  queued : Bool := false    -- registered, waiting for the write slot behind a held Write
+  park : Bool := false      -- its releaseStream will stop in the StreamFinished callback
+  parked : Bool := false    -- it is there now (streams.Clear has run)
+  due : Bool := false
+  answered : Bool := false
+  written : Bool := false
+  gated : Bool := false     -- stopped in the StreamContext callback: id reserved, not registered
+
+structure DConn where
+  st : MuxOwn.St
+  off : Nat                 -- IDGenerator.offset
+  cur : Option Nat := none
+  zed : Bool := false       -- `z` / `k` was given
+
+structure DS where
+  hl : Nat
+  nb : Nat
+  cap : Nat
+  conns : List DConn
+  cc : Nat                  -- current connection (1-based)
+  calls : List DCall
+  out : List String
+  bad : Option String
+
+def DS.fail (ds : DS) (m : String) : DS := if ds.bad.isSome then ds else { ds with bad := some m }
+
+def DS.act (ds : DS) (k : Nat) (a : MuxOwn.Act) (what : String) : DS :=
+  if ds.bad.isSome then ds else
+  match ds.conns[k - 1]? with
+  | none => ds.fail "bad-op"
+  | some cn =>
+    match MuxOwn.step MuxOwn.Cfg.code cn.st a with
+    | some st' => { ds with conns := ds.conns.set (k - 1) { cn with st := st' } }
+    | none => ds.fail s!"model-stuck:{what}"
+
+def DS.setCall (ds : DS) (i : Nat) (c : DCall) : DS := { ds with calls := ds.calls.set (i - 1) c }
+def DS.setConn (ds : DS) (k : Nat) (f : DConn → DConn) : DS :=
+  match ds.conns[k - 1]? with
+  | some cn => { ds with conns := ds.conns.set (k - 1) (f cn) }
+  | none => ds
+
+def DS.stOf (ds : DS) (k : Nat) : MuxOwn.St :=
+  match ds.conns[k - 1]? with
+  | some cn => cn.st
+  | none => MuxOwn.init 0
+
+def DS.heldOn (ds : DS) (k : Nat) : Bool := ds.calls.any fun c => c.conn == k && c.held
+
+/-- IDGenerator.GetStream, sequential: the offset moves on by one bucket, the first bucket from there that has a free
+    id gives its lowest one (id 0 is never free) -/
+def dAlloc (nb off : Nat) (used : Nat → Bool) : Option (Nat × Nat) :=
+  let off' := (off + 1) % nb
+  ((List.range nb).findSome? fun i =>
+    let pos := (i + off') % nb
+    ((List.range 64).find? fun j => !(used (pos * 64 + j))).map fun j => pos * 64 + j).map fun s => (s, off')
+
+/-- once closeWithError has run every waiting call of the connection is handed its argument -/
+def DS.settle (ds : DS) (k : Nat) : DS :=
+  if (ds.stOf k).closed.isSome then
+    (List.range ds.calls.length).foldl (fun ds j =>
+      match ds.calls[j]? with
+      | some c => if c.conn = k then
+          (match (ds.stOf k).pc (j + 1) with
+           | .flight _ true true true => ds.act k (.connDone (j + 1)) "connDone"
+           | _ => ds)
+        else ds
+      | none => ds) ds
+  else ds
+
+/-- releaseStream of call i: streams.Clear, then the StreamFinished callback (which parks a call marked `%`) -/
+def DS.release (ds : DS) (i : Nat) (c : DCall) : DS :=
+  if (ds.stOf c.conn).rel i = .due then
+    let ds := ds.act c.conn (.release i) "release"
+    if c.park then ds.setCall i { c with parked := true } else ds.act c.conn (.relDone i) "relDone"
+  else ds
+
+def DS.start (ds : DS) (typ : Char) (L : Nat) (held park : Bool) (gate : Bool := false) : DS :=
+  let k := ds.cc
+  match ds.conns[k - 1]? with
+  | none => ds.fail "bad-op"
+  | some cn =>
+    let busy := ds.heldOn k
+    if cn.zed ∨ cn.cur.isSome ∨ (held ∧ busy) ∨ ds.calls.length ≥ 40 then ds.fail "bad-op" else
+    match dAlloc ds.nb cn.off (fun s => s == 0 || (cn.st.owner s).isSome) with
+    | none => ds.fail "bad-op"
+    | some (sid, off') =>
+      let i := ds.calls.length + 1
+      let c : DCall := { typ := typ, conn := k, L := L, held := held, park := park }
+      let ds := { ds with calls := ds.calls ++ [c] }
+      let ds := ds.setConn k fun cn => { cn with off := off' }
+      if gate then (ds.act k (.reserve i sid .user) "reserve").setCall i { c with gated := true } else
+      let ds := (ds.act k (.reserve i sid .user) "reserve").act k (.register i) "register"
+      if typ = 'b' then
+        (ds.act k (.buildFailed i) "buildFailed").release i c
+      else if busy then ds.setCall i { c with queued := true }
+      else
+        let ds := ds.act k (.write i) "write"
+        let ds := if held then ds else ds.act k (.writeReturned i) "writeReturned"
+        ds.setCall i { c with written := true }
+
+def DS.complete (ds : DS) (i : Nat) (c : DCall) : DS :=
+  if c.held then ds.setCall i { c with due := true }
+  else
+    let sid := (ds.stOf c.conn).sidOf i
+    let ds := ds.act c.conn (.deliver sid) "deliver"
+    let ds := ds.release i c
+    ds.settle c.conn
+
+def DS.answerable (ds : DS) (i : Nat) (c : DCall) : Bool :=
+  match ds.conns[c.conn - 1]? with
+  | none => false
+  | some cn => i != 0 && c.typ == 'q' && c.written && !cn.zed && !(ds.heldOn c.conn && !c.held)
+
+def DS.pieces (ds : DS) (i : Nat) (n : Option Nat) : DS :=
+  match ds.calls[i - 1]? with
+  | none => ds.fail "bad-op"
+  | some c =>
+    let cur := match ds.conns[c.conn - 1]? with | some cn => cn.cur | none => none
+    if ¬ ds.answerable i c ∨ (cur.isSome ∧ cur ≠ some i) ∨ (c.answered ∧ cur ≠ some i) then ds.fail "bad-op" else
+    let total := ds.hl + c.L
+    let k := match n with | some k => k | none => total - c.sentB
+    let after := c.sentB + k
+    if k = 0 ∨ after > total then ds.fail "bad-op" else
+    let sid := (ds.stOf c.conn).sidOf i
+    let ds := if c.answered then ds else ds.act c.conn (.answer sid 0 i) "answer"
+    let c := { c with sentB := after, answered := true }
+    let ds := (ds.setCall i c).setConn c.conn fun cn => { cn with cur := if after = total then none else some i }
+    if after = total then ds.complete i c else ds
+
+def DS.whole (ds : DS) (i : Nat) (k : Char) (code : Nat) : DS :=
+  match ds.calls[i - 1]? with
+  | none => ds.fail "bad-op"
+  | some c =>
+    let cur := match ds.conns[c.conn - 1]? with | some cn => cn.cur | none => none
+    if ¬ ds.answerable i c ∨ c.answered ∨ cur.isSome ∨ (k ≠ 'V' ∧ k ≠ 'E') then ds.fail "bad-op" else
+    let sid := (ds.stOf c.conn).sidOf i
+    let ds := ds.act c.conn (.answer sid (kindOf c.typ k) (i + 1000 * code)) "answer"
+    let c := { c with answered := true, sentB := 1 }
+    (ds.setCall i c).complete i c
+
+def DS.quiet (ds : DS) (k : Nat) : Bool :=   -- nothing of connection k is in the receive loop's hands
+  match ds.conns[k - 1]? with
+  | none => false
+  | some cn => cn.cur.isNone && !(ds.calls.any fun c => c.conn == k && c.due)
+
+/-- the StreamContext callback of call i returns: addCall, then on to the write slot -/
+def DS.ungate (ds : DS) (i : Nat) (c : DCall) : DS :=
+  if ¬ c.gated then ds else
+  let k := c.conn
+  let ds := ds.act k (.register i) "register"
+  let c := { c with gated := false }
+  match (ds.stOf k).pc i with
+  | .flight _ true false false =>
+      if ds.heldOn k then ds.setCall i { c with queued := true }
+      else ((ds.act k (.write i) "write").act k (.writeReturned i) "writeReturned").setCall i { c with written := true }
+  | _ => ds.setCall i c          -- addCall refused: ErrConnectionClosed (the id stays reserved)
+
+def DS.step (ds : DS) (w : String) : DS :=
+  if ds.bad.isSome then ds else
+  let gate := w.startsWith "^"
+  let w := if gate then String.ofList (w.toList.drop 1) else w
+  let held := w.startsWith "!"
+  let w := if held then String.ofList (w.toList.drop 1) else w
+  let park := w.endsWith "%"
+  let w := if park then String.ofList (w.toList.dropLast) else w
+  let plain := ¬ held ∧ ¬ park ∧ ¬ gate
+  match w.toList with
+  | 'q' :: r => match (String.ofList r).toNat? with
+      | some L => if gate ∧ held then ds.fail "bad-op" else ds.start 'q' L held park gate
+      | none => ds.fail "bad-op"
+  | 's' :: r =>
+      match (String.ofList r).toNat? with
+      | some i =>
+        match ds.calls[i - 1]? with
+        | none => ds.fail "bad-op"
+        | some c => if i = 0 ∨ ¬ plain then ds.fail "bad-op" else (ds.ungate i c).settle c.conn
+      | none => ds.fail "bad-op"
+  | ['b'] => if held ∨ gate then ds.fail "bad-op" else ds.start 'b' 0 false park
+  | '@' :: r => match (String.ofList r).toNat? with
+      | some k => if plain ∧ 1 ≤ k ∧ k ≤ ds.conns.length then { ds with cc := k } else ds.fail "bad-op"
+      | none => ds.fail "bad-op"
+  | 'd' :: r =>
+      if ¬ plain then ds.fail "bad-op" else
+      match (String.ofList r).splitOn "." with
+      | [a] => match a.toNat? with
+        | some i => ds.pieces i none
+        | none => ds.fail "bad-op"
+      | [a, b] => match a.toNat?, b.toNat? with
+        | some i, some n => ds.pieces i (some n)
+        | _, _ => ds.fail "bad-op"
+      | _ => ds.fail "bad-op"
+  | 'A' :: r =>
+      if ¬ plain then ds.fail "bad-op" else
+      match (String.ofList r).splitOn ":" with
+      | [a, b] => match a.toNat?, b.toList with
+        | some i, [k] => if k = 'E' then ds.fail "bad-op" else ds.whole i k 0
+        | some i, 'E' :: cs => match (String.ofList cs).toNat? with
+          | some code => ds.whole i 'E' code
+          | none => ds.fail "bad-op"
+        | _, _ => ds.fail "bad-op"
+      | _ => ds.fail "bad-op"
+  | 'w' :: r =>
+      match (String.ofList r).toNat? with
+      | some i =>
+        match ds.calls[i - 1]? with
+        | none => ds.fail "bad-op"
+        | some c =>
+          if i = 0 ∨ ¬ plain then ds.fail "bad-op" else
+          if ¬ c.held then ds else
+          let ds := ds.act c.conn (.writeReturned i) "writeReturned"
+          let c' := { c with held := false, due := false }
+          let ds := ds.setCall i c'
+          -- the write slot is free: every call that was waiting for it writes now
+          let ds := (List.range ds.calls.length).foldl (fun ds j =>
+            match ds.calls[j]? with
+            | some q => if q.conn = c.conn ∧ q.queued then
+                ((ds.act q.conn (.write (j + 1)) "write").act q.conn (.writeReturned (j + 1)) "writeReturned").setCall (j + 1)
+                  { q with queued := false, written := true }
+              else ds
+            | none => ds) ds
+          if c.due then ds.complete i c' else ds.settle c.conn
+      | none => ds.fail "bad-op"
+  | 'c' :: r =>
+      match (String.ofList r).toNat? with
+      | some i =>
+        match ds.calls[i - 1]? with
+        | none => ds.fail "bad-op"
+        | some c =>
+          let cur := match ds.conns[c.conn - 1]? with | some cn => cn.cur | none => none
+          if i = 0 ∨ ¬ plain ∨ c.typ ≠ 'q' ∨ c.held ∨ c.gated ∨ cur = some i then ds.fail "bad-op" else
+          if c.queued then
+            let ds := ds.act c.conn (.writeCancelled i) "writeCancelled"
+            let c' := { c with queued := false }
+            (ds.setCall i c').release i c'
+          else
+            match (ds.stOf c.conn).pc i with
+            | .flight _ true true true => ds.act c.conn (.cancel i) "cancel"
+            | _ => ds
+      | none => ds.fail "bad-op"
+  | 'f' :: r =>
+      match (String.ofList r).toNat? with
+      | some i =>
+        match ds.calls[i - 1]? with
+        | none => ds.fail "bad-op"
+        | some c =>
+          if i = 0 ∨ ¬ plain then ds.fail "bad-op" else
+          if c.parked then (ds.act c.conn (.relDone i) "relDone").setCall i { c with parked := false, park := false }
+          else ds.setCall i { c with park := false }
+      | none => ds.fail "bad-op"
+  | 'v' :: r =>
+      if ¬ plain ∨ ¬ ds.quiet ds.cc ∨ ds.heldOn ds.cc ∨ (String.ofList r).toNat?.isNone ∨ (ds.stOf ds.cc).closed.isSome then ds.fail "bad-op"
+      else ds.act ds.cc .event "event"
+  | 'x' :: r =>
+      if ¬ plain ∨ ¬ ds.quiet ds.cc ∨ ds.heldOn ds.cc ∨ (String.ofList r).toNat?.isNone ∨ (ds.stOf ds.cc).closed.isSome then ds.fail "bad-op"
+      else ds.act ds.cc (.stray (ds.cap - 1)) "stray"
+  | ['a'] =>
+      if ¬ plain then ds.fail "bad-op" else
+      let st := ds.stOf ds.cc
+      let n := ((List.range ds.calls.length).filter fun j =>
+        match ds.calls[j]? with
+        | some c => c.conn == ds.cc && st.owner (st.sidOf (j + 1)) == some (j + 1)
+        | none => false).length
+      { ds with out := s!"a={n}" :: ds.out }
+  | [z] =>
+      if z ≠ 'k' ∧ z ≠ 'z' then ds.fail "bad-op" else
+      let k := ds.cc
+      let busy := ds.calls.any fun c => c.conn == k && (c.held || c.queued || c.parked)
+      if ¬ plain ∨ ¬ ds.quiet k ∨ (ds.stOf k).closed.isSome ∨ (z = 'k' ∧ busy) then ds.fail "bad-op" else
+      let ds := ds.act k .close "close"
+      let ds := ds.setConn k fun cn => { cn with zed := true }
+      -- (closeWithError and releaseStream share one Once per call for StreamAbandoned / StreamFinished: from here on
+      --  no call of this connection is parked any more)
+      let ds := { ds with calls := ds.calls.map fun (c : DCall) => if c.conn = k then { c with park := false } else c }
+      ds.settle k
+  | _ => ds.fail "bad-op"
+
+def DS.outcome (ds : DS) (i : Nat) (c : DCall) : String :=
+  if c.parked then "W" else
+  match (ds.stOf c.conn).pc i with
+  | .done (.resp f) => if f.sid ≠ (ds.stOf c.conn).sidOf i then "F!foreign" else "R"
+  | .done .ctxErr => "C"
+  | .done (.connErr .plain) => "X"
+  | .done (.connErr (.frame _)) => "F!foreign"
+  | .done .timeout => "T"
+  | .done .writeErr => "X"
+  | .done .buildErr => "B"
+  | .done .dupErr => "D!stream-in-use"
+  | .flight _ _ _ _ => "W"
+  | .idle => "?"
+
+def dsAnswer (proto wr : String) (steps : List String) : String :=
+  match proto.toNat?, wr.toNat? with
+  | some p, some _ =>
+    if p < 2 ∨ p > 4 then "bad-op" else
+    let cap := if p ≤ 2 then 128 else 32768
+    let nb := cap / 64
+    let cn : DConn := { st := MuxOwn.init cap, off := nb - 1 }
+    let ds0 : DS := { hl := if p ≤ 2 then 8 else 9, nb := nb, cap := cap, conns := [cn, cn], cc := 1, calls := [], out := [], bad := none }
+    let ds := steps.foldl DS.step ds0
+    -- (a script must let the calls that keep closeWithError waiting get on)
+    let ds := if ds.calls.any (fun c => (c.held || c.queued) && (ds.stOf c.conn).closed.isSome) then ds.fail "bad-op" else ds
+    match ds.bad with
+    | some b => b
+    | none =>
+      let idx := List.range ds.calls.length
+      let sids := idx.map fun j => match ds.calls[j]? with
+        | some c => if c.written then toString ((ds.stOf c.conn).sidOf (j + 1)) else "-"
+        | none => "?"
+      let outs := idx.map fun j => match ds.calls[j]? with
+        | some c => ds.outcome (j + 1) c
+        | none => "?"
+      let cs := ds.conns.map fun cn => if cn.st.closed.isSome then "closed" else "open"
+      " ".intercalate (["s=" ++ ",".intercalate sids] ++ ds.out.reverse ++ [";"] ++ outs ++ ["|"] ++ cs)
+  | _, _ => "bad-op"
 
 
 /-- the connection on which token `t` was requested (tokens are unique per run) -/
@@ -319,6 +652,10 @@ def step (s : S) (ws : List String) : S × String :=
   -- driver-originated requests next to user requests / Write returning late (theorems C01_no_foreign_frame,
   -- C01_registered_before_written, C01_no_response_lost): the outcomes the machine MuxOwn (code configuration) allows
   | "dr" :: proto :: wr :: hb :: steps => (s, drAnswer proto wr hb steps)
+  -- schedule points inside exec's exits and releaseStream (id freed, callback running, a new request on the same id),
+  -- calls waiting for the write slot, close while calls are inside exec, two connections (theorems
+  -- C01_release_window_safe, C01_registered_id_is_held, C01_early_exit_frees_id, C01_connections_independent)
+  | "ds" :: proto :: wr :: steps => (s, dsAnswer proto wr steps)
   | "rd" :: tmo :: k :: items => (s, rdAnswer tmo k items)
   | "rdo" :: tmo :: k :: items => (s, rdAnswer tmo k items)
   | _ => (s, "bad-op")
